@@ -5,6 +5,7 @@ package paths
 
 import (
 	"fmt"
+	"go/constant"
 	"go/token"
 	"go/types"
 	"sort"
@@ -234,6 +235,9 @@ func (g *Graph) Succ(n Node) []Node {
 	case *ssa.If:
 		var out []Node
 		for idx, s := range x.Block().Succs {
+			if g.deadByConstArg(f, x, idx) {
+				continue
+			}
 			if g.PruneEdge != nil && g.PruneEdge(f, x, idx) {
 				continue
 			}
@@ -525,6 +529,9 @@ func (g *Graph) FindPath(from []Node, avoid func(Node) bool, target func(Node) b
 			if ok {
 				id := idOf(n.F, v)
 				for idx, sb := range iff.Block().Succs {
+					if g.deadByConstArg(n.F, iff, idx) {
+						continue
+					}
 					if g.PruneEdge != nil && g.PruneEdge(n.F, iff, idx) {
 						continue
 					}
@@ -568,6 +575,42 @@ func (g *Graph) FindPath(from []Node, avoid func(Node) bool, target func(Node) b
 		}
 	}
 	return nil
+}
+
+// deadByConstArg: the branch tests a boolean parameter of an inlined callee for which the call site of this frame
+// passes a constant (`s.setConnect(msg, true)`): the edge for the other value cannot be taken in this frame.
+func (g *Graph) deadByConstArg(f *Frame, iff *ssa.If, idx int) bool {
+	if f == nil || f.Site == nil {
+		return false
+	}
+	cond := iff.Cond
+	truth := idx == 0
+	for i := 0; i < 4; i++ {
+		if u, ok := cond.(*ssa.UnOp); ok && u.Op == token.NOT {
+			cond, truth = u.X, !truth
+			continue
+		}
+		break
+	}
+	p, ok := cond.(*ssa.Parameter)
+	if !ok || p.Parent() != f.Fn {
+		return false
+	}
+	args := f.Site.Common().Args
+	if f.Site.Common().IsInvoke() {
+		return false
+	}
+	for i, q := range f.Fn.Params {
+		if q != p || i >= len(args) {
+			continue
+		}
+		k, ok := args[i].(*ssa.Const)
+		if !ok || k.Value == nil || k.Value.Kind() != constant.Bool {
+			return false
+		}
+		return constant.BoolVal(k.Value) != truth
+	}
+	return false
 }
 
 // onCycle: b can reach itself.
